@@ -143,6 +143,13 @@ class Random(IO):
     def _name(self):
         return self._info[1]
 
+    def __dask_tokenize__(self):
+        # The name already identifies the realization (per-block seeds, size,
+        # chunks, parameters).  Tokenizing the operands instead would hash the
+        # generator snapshot object, whose pickle bytes are not stable across a
+        # pickle round trip, so names derived from this node would change.
+        return self._name
+
     @property
     def bitgens(self):
         return self._info[0]
